@@ -78,6 +78,8 @@ type Batch struct {
 	Sweep *SweepSpec
 	// Race: this batch runs in a second harness binary built with -race (batch names end in ".race")
 	Race bool
+	// Start is the first run index (so that two batches of one engine configuration use different base runs)
+	Start uint64
 }
 
 // replayBatch reads the batch name out of a replay file.
@@ -189,10 +191,14 @@ var specs = map[string]*CheckSpec{
 			{Name: "c08.v1", Count: 60000},
 			{Name: "c08.hello", Count: 40000},
 			{Name: "c08.fatal", Count: 100000},
-			{Name: "c08.crash", Count: 64, Extra: map[string]any{"every_byte": true}},
-			{Name: "c08.crashv1", Count: 16, Extra: map[string]any{"every_byte": true}},
+			// every byte offset x every fault kind for a few base transcripts, a stride of 16 for many more
+			// (one base transcript is ~8000 bytes: 40 000 fault points when every byte is taken)
+			{Name: "c08.crash", Count: 8, Extra: map[string]any{"every_byte": true}},
+			{Name: "c08.crash", Count: 72, Start: 8, Extra: map[string]any{"every_byte": false, "stride": 16}},
+			{Name: "c08.crashv1", Count: 8, Extra: map[string]any{"every_byte": true}},
+			{Name: "c08.crashv1", Count: 24, Start: 8, Extra: map[string]any{"every_byte": false, "stride": 16}},
 		},
-		Rule:   "each run = the real ATP client against a scripted server playing a generated v3 or v1 transcript (hello with a real self-described schema, work-done, signals, non-fatal / step-fatal / server-fatal errors, unknown message IDs) under one seeded schedule, with the server->client stream cut (EOF), failing (read error), garbled or stalled-then-ended at a byte offset and, in a fraction of runs, the client->server writes failing independently; crash batches first run the base transcript fault-free and then re-run it with each fault kind at every message boundary +-1 and a stride (thorough: every byte offset); distinct = schedule signature x fault point; non-trivial = a fault fired or a runnable goroutine was preempted",
+		Rule:   "each run = the real ATP client against a scripted server playing a generated v3 or v1 transcript (hello with a real self-described schema, work-done, signals, non-fatal / step-fatal / server-fatal errors, unknown message IDs) under one seeded schedule, with the server->client stream cut (EOF), failing (read error), garbled or stalled-then-ended at a byte offset and, in a fraction of runs, the client->server writes failing independently; crash batches first run the base transcript fault-free and then re-run it with each fault kind at every message boundary +-1 and a stride (thorough: every byte offset for 8 + 8 base transcripts, every 16th for 72 + 24 more) plus one-byte flips of every message ID into every other; distinct = schedule signature x fault point; non-trivial = a fault fired or a runnable goroutine was preempted",
 		Real:   []string{"atp client (atp/client.go)", "schema.UnserializeSchema on the received hello", "fxamacker/cbor"},
 		Stub:   append([]string{"atp server -> scripted server (reactive transcript, canonical CBOR)"}, commonStub...),
 		Assume: []string{"premise: the server stream ends, errors or garbles; runs in which only the client's writes failed while the server stream stayed intact are excluded and counted", "a success result is legitimate iff a well-formed work-done for that run ID is present in the bytes actually delivered, as decided by the reference decoder"},
@@ -279,7 +285,7 @@ var specs = map[string]*CheckSpec{
 		Thorough: []Batch{
 			{Name: "c10.mutate", Count: 600000},
 			{Name: "c10.random", Count: 200000},
-			{Name: "c10.sweep", Count: 160, Extra: map[string]any{"stride": 1}},
+			{Name: "c10.sweep", Count: 48, Extra: map[string]any{"stride": 1}},
 			{Name: "c10.scope", Count: 600000},
 		},
 		Rule:   "each run = Client.ReadSchema against a scripted server whose hello carries a generated plugin description with 1-2 structural mutations (delete / retype / rename / re-key / duplicate / re-point / null / extreme) at tape-chosen nodes, or a grammar-free random tree; batch c10.scope hands mutated (and unmutated) scope descriptions to schema.UnserializeScope directly, where loading = UnserializeScope + ApplySelf + ValidateReferences; an accepted schema is then used as an engine would (Unserialize/Validate/Serialize/ValidateCompatibility on generated valid and invalid inputs for every step input, output and signal schema, SelfSerialize); sweep batches apply every mutation kind at every node (thorough) or every 6th node (quick) of a base description; distinct = distinct mutation set; non-trivial = at least one mutation applied",
@@ -679,9 +685,9 @@ func doCheck(id, tier string) int {
 			shards = 4 // the fault points of one base execution are spread over four workers
 		}
 		for c := uint64(0); c*per < count; c++ {
-			from, to := c*per, (c+1)*per
-			if to > count {
-				to = count
+			from, to := b.Start+c*per, b.Start+(c+1)*per
+			if to > b.Start+count {
+				to = b.Start + count
 			}
 			for sh := 0; sh < shards; sh++ {
 				j := Job{Property: id, Batch: b.Name, Mode: "explore", Seed: seed + uint64(bi)*1000003, From: from, To: to,
